@@ -16,7 +16,7 @@ import (
 
 func t3DumpDir() string { return filepath.Join(verifDir, "work", "t3dump") }
 
-func runT3Dump(verbose bool) error {
+func runT3Dump(verbose bool, specs []HarnessSpec) error {
 	dir := t3DumpDir()
 	os.RemoveAll(dir)
 	os.MkdirAll(dir, 0o755)
@@ -25,19 +25,32 @@ func runT3Dump(verbose bool) error {
 	ov := map[string]map[string]string{"Replace": {
 		filepath.Join(repoDir, "internal/jit/zz_verif_dump.go"):                filepath.Join(verifDir, "harness/internal/jit/dump.go"),
 		filepath.Join(repoDir, "internal/decoder/jitdec/zz_verif_dump_test.go"): filepath.Join(verifDir, "harness/internal/decoder/jitdec/dump_test.go"),
+		filepath.Join(repoDir, "internal/encoder/x86/zz_verif_dump.go"):         filepath.Join(verifDir, "harness/internal/encoder/x86/dump.go"),
+		filepath.Join(repoDir, "internal/encoder/zz_verif_dump_test.go"):        filepath.Join(verifDir, "harness/internal/encoder/dump_test.go"),
 	}}
 	b, _ := json.Marshal(ov)
 	ovp := filepath.Join(work, "overlay_t3.json")
 	os.WriteFile(ovp, b, 0o644)
-	cmd := exec.Command("go", "test", "-tags", "verif", "-vet=off", "-count=1", "-overlay", ovp, "-run", "^TestVerifDump$", "./internal/decoder/jitdec/")
-	cmd.Dir = repoDir
-	cmd.Env = append(os.Environ(), "GOFLAGS=", "GOPROXY=off", "GOSUMDB=off", "GOTOOLCHAIN=local", "GOWORK="+gowork, "VERIF_DUMP_DIR="+dir)
-	out, err := cmd.CombinedOutput()
-	if verbose {
-		fmt.Fprintln(os.Stderr, string(out))
+	// which assemblers are needed: dec_* dumps come from jitdec, enc_* dumps from the encoder
+	pkgs := map[string]bool{}
+	for _, s := range specs {
+		if len(s.Asm) > 4 && s.Asm[:4] == "enc_" {
+			pkgs["./internal/encoder/"] = true
+		} else {
+			pkgs["./internal/decoder/jitdec/"] = true
+		}
 	}
-	if err != nil {
-		return fmt.Errorf("tier-3 dump failed: %v\n%s", err, out)
+	for pkg := range pkgs {
+		cmd := exec.Command("go", "test", "-tags", "verif", "-vet=off", "-count=1", "-overlay", ovp, "-run", "^TestVerifDump$", pkg)
+		cmd.Dir = repoDir
+		cmd.Env = append(os.Environ(), "GOFLAGS=", "GOPROXY=off", "GOSUMDB=off", "GOTOOLCHAIN=local", "GOWORK="+gowork, "VERIF_DUMP_DIR="+dir)
+		out, err := cmd.CombinedOutput()
+		if verbose {
+			fmt.Fprintln(os.Stderr, string(out))
+		}
+		if err != nil {
+			return fmt.Errorf("tier-3 dump failed (%s): %v\n%s", pkg, err, out)
+		}
 	}
 	return nil
 }
@@ -54,6 +67,10 @@ func t3Body(s HarnessSpec) (func(x *gosym.Exec), error) {
 		return gosym.T3Float32Range(p), nil
 	case "intrange":
 		return gosym.T3IntRange(p, s.T3Bits, s.T3Signed, s.T3Native), nil
+	case "encbuf":
+		return gosym.T3EncBufferBounds(p, s.T3Native), nil
+	case "b64cap":
+		return gosym.T3Base64Cap(p), nil
 	case "gentable":
 		return gosym.T3GenericTables(p), nil
 	case "gendepth":
